@@ -49,14 +49,14 @@ def cfg(spec, loads=0, hs=0, clients="{}", unusable='{"U1"}', refresh=1, split=F
 def model(ctx):
     """(a): the state machine, and that its properties can fail."""
     loads, hs = ctx.pick((4, 2), (5, 2))
-    mc = ctx.tlc("CertStore_MC", cfg_text=cfg("MCSpec", loads, hs, '{"c1", "c2"}', refresh=3, view=True, inv=MC_INV),
+    clients = ctx.pick('{"c1", "c2"}', '{"c1", "c2", "c3"}')
+    mc = ctx.tlc("CertStore_MC", cfg_text=cfg("MCSpec", loads, hs, clients, refresh=3, view=True, inv=MC_INV),
                  workers=8, timeout=ctx.pick(300, 1800), coverage=ctx.thorough)
     ctx.log("MC: %d generated, %d distinct, depth %d, %.0fs" % (mc.generated, mc.distinct, mc.depth, mc.wall))
     if not ctx.need_tlc_ok(mc, "CertStore MC"):
         return False
     if ctx.thorough:
-        never = [a for a in mc.coverage0 if a in ("HsInv", "HsLoad", "HsSelect", "LoadGood", "LoadSame", "LoadUnusable",
-                                                  "LoadError", "Publish", "Sleep")]
+        never = [a for a in mc.coverage0 if a != "APublish2"]   # Publish2 exists only under the SplitStore deviation
         if never:
             ctx.inconclusive("CertStore MC: actions never taken: %s" % never)
             return False
